@@ -70,7 +70,7 @@ def split_failures(rep):
         if k.startswith("DRIFT"):
             by["DRIFT"].append(f)
             continue
-        budget = f["detail"].get("case", [{}])[0].get("op", [None, 99])[1]
+        budget = (f["detail"].get("case") or [{}])[0].get("op", [None, 99])[1]
         if "not wiped" in k or "never released" in k or "release event" in k or "number of releases" in k:
             by["C15"].append(f)
         elif budget != 99 and ("result" in k or "killed by signal" in k):
